@@ -230,7 +230,10 @@ structure NumRule where
   co : Co                   -- the coercion every branch of `val` ends with
   guard : Gd
   doc : Doc
-  out : List Str            -- where the normalised value sits in the returned config ([] = unknown)
+  out : List Str            -- canonical path of the normalised leaf in the returned config ([] = unknown)
+  final : Option NE         -- value that leaf holds at `return` when it differs from the checked one
+  rewritten : Bool          -- the leaf is written again after the range check (alias folding, fallback…)
+  aliases : List (List Str) -- other keys whose value can be folded into the canonical leaf
   deriving Repr
 
 structure EnumRule where
@@ -458,6 +461,16 @@ def NumRule.active (e : Env) (r : NumRule) : Bool := condsHold e r.conds
 def NumRule.value (e : Env) (r : NumRule) : Num := r.val.eval e
 def NumRule.fires (e : Env) (r : NumRule) : Bool := r.active e && r.guard.eval (r.value e)
 
+/-- The value the normalised config carries at the rule's canonical path. -/
+def NumRule.outValue (e : Env) (r : NumRule) : Num :=
+  match r.final with
+  | some f => f.eval e
+  | none => r.value e
+
+/-- "accepted ⇒ the NORMALISED leaf lies in the documented range" for one rule on one input. -/
+def NumRule.outRangeOk (e : Env) (r : NumRule) : Bool :=
+  !(r.active e) || r.guard.eval (r.value e) || r.doc.holds (r.outValue e)
+
 def EnumRule.fires (e : Env) (r : EnumRule) : Bool :=
   condsHold e r.conds &&
     (match pyStr r.lower (r.val.eval e) with
@@ -531,15 +544,17 @@ def Num.agree : Num → Num → Bool
       (decide (a ≤ -(2 ^ 53)) && decide (b ≤ -(2 ^ 53)))
   | x, y => decide (x = y)
 
-/-- Output monitor: the value the implementation returned at `r.out` lies in the documented
-range and equals the model's coerced value. `none` at that path is not a failure. -/
+/-- Output monitor on the configuration the implementation RETURNED: a numeric leaf found at the
+rule's canonical path lies in the documented range — whether or not the rule's conditions held on
+the input (an alias can put a value there) — and, when the rule was active, it is a number of the
+rule's coercion type equal to the model's normalised value.  An absent leaf is not a failure. -/
 def NumRule.outOk (e : Env) (out : List (K × J)) (r : NumRule) : Bool :=
-  if r.out.isEmpty || !(r.active e) then true else
+  if r.out.isEmpty then true else
   match outAt out r.out with
   | none => true
   | some j => match numOfJ j with
-    | some n => r.doc.holds n && r.co.range n && n.agree (r.value e)
-    | none => false
+    | some n => r.doc.holds n && (!(r.active e) || (r.co.range n && n.agree (r.outValue e)))
+    | none => !(r.active e)
 
 def EnumRule.outOk (out : List (K × J)) (r : EnumRule) : Bool :=
   if r.out.isEmpty then true else
